@@ -87,7 +87,7 @@ fn builtin_definitions__deserialized_matcher_kind() {
             assert!(!m.match_value("n", &v), "a deserialized never-list matcher matches nothing");
         }
         Err(_) => {
-            assert!(false, "`{}` must deserialize into the never-list matcher");
+            assert!(false, "an empty struct must deserialize into the never-list matcher");
         }
     }
     std::mem::forget(never);
@@ -98,7 +98,7 @@ fn builtin_definitions__deserialized_matcher_kind() {
             assert!(m.match_value("n", &v), "a deserialized always-list matcher matches everything");
         }
         Err(_) => {
-            assert!(false, "`{}` must deserialize into the always-list matcher");
+            assert!(false, "an empty struct must deserialize into the always-list matcher");
         }
     }
     std::mem::forget(always);
